@@ -1,7 +1,5 @@
-(* Name -> model function table used by both the extracted driver and the vm_compute
-   cross-check.  Arguments and results are [sx] values (nested lists of naturals). *)
-From BFG Require Import Base.Chars Base.Sx.
-From BFG Require Import Shell.PosixQuote Shell.Sh.
+(* Dispatch entries (name -> sx wrapper) for the Shell models. *)
+From BFG Require Import Base.Chars Base.Sx Shell.PosixQuote Shell.Sh.
 From Coq Require Import String.
 Local Open Scope N_scope.
 
@@ -29,16 +27,3 @@ Definition table : list (string * (sx -> sx)) := [
   ("sh.words", fun a => sx_opt (sx_list sx_str) (sh_words (uw_of (nth_sx 0 a)) (un_str (nth_sx 1 a))));
   ("sh.commands", fun a => sx_opt (sx_list sx_simple) (sh_commands (uw_of (nth_sx 0 a)) (un_str (nth_sx 1 a))))
 ]%string.
-
-Fixpoint lookup (name : string) (t : list (string * (sx -> sx))) : option (sx -> sx) :=
-  match t with
-  | [] => None
-  | (n, f) :: r => if String.eqb n name then Some f else lookup name r
-  end.
-
-(* [L [A 0; result]] on success, [L [A 1]] for an unknown name *)
-Definition dispatch (name : string) (arg : sx) : sx :=
-  match lookup name table with
-  | Some f => L [A 0; f arg]
-  | None => L [A 1]
-  end.
